@@ -49,7 +49,7 @@ PROPERTIES = {
     ),
     'C15': dict(
         units=['wire'],
-        canaries=['wire'],
+        canaries=['wire', 'streams'],
         counterexample=cex.cex_c15,
         extra=[validate.frame_boundary],
         scope='the codec is built from the configuration exactly (4-byte big-endian length, configured maximum = codec limit), the same '
@@ -61,8 +61,8 @@ PROPERTIES = {
         assumptions=[],
     ),
     'C06': dict(
-        units=['wire', 'kani_wire'],
-        canaries=['wire'],
+        units=['wire', 'kani_wire', 'timeout', 'kani_timeout'],
+        canaries=['wire', 'streams'],
         scope='NARROW: every function anemo itself runs on attacker-controlled bytes before the user service is called returns an error instead '
               'of panicking, for every byte string: read_version_frame (Kani, all inputs), read_request / read_response, from_raw, Version::new, '
               'StatusCode::new, try_parse_timeout, both Timeout::call, and BiStreamRequestHandler::handle swallows the error so only that stream ends. '
@@ -136,14 +136,41 @@ PROPERTIES = {
         assumptions=[CONC],
     ),
     'C09': dict(
-        units=['active_peers', 'network_api'],
-        canaries=['active_peers'],
+        units=['active_peers'],
+        canaries=['active_peers', 'dialing'],
         scope='ONE sentence of three: an explicit disconnect removes the peer locally at once (one critical section), closes that connection and appends exactly '
               'LostPeer(peer, Requested); afterwards peer(p) is None and rpc(p, _) fails until a new connection is registered; every way a connection can end is mapped '
               'to its documented reason and a handler exit removes exactly its own entry.',
         unverified=['"A lists B iff B lists A" after quiescence, and propagation of a close / loss to the other side within the idle timeout: time, the remote node, quinn keep-alive',
                     'that every listed peer can be reached by RPC (liveness)'],
         assumptions=[CONC],
+    ),
+    'C01': dict(
+        units=['crypto', 'wire'],
+        canaries=['streams'],
+        scope='GLUE ONLY (cryptography and X.509 parsing are uninterpreted): the PeerId of a connection is the public key parsed from the FIRST certificate of '
+              'the chain authenticated in that connection\'s own handshake; every handshake-signature callback delegates unchanged to rustls restricted to Ed25519 '
+              '(never accepts unconditionally, never widens the algorithm list); client authentication is offered and mandatory; the pinning verifier requires key == expected identity; '
+              'the PeerId a handler sees on a request and a caller sees on a response is connection.peer_id(), attached AFTER decoding, and decoding yields empty extensions, so nothing '
+              'carried in the message can supply or influence it; the wire headers carry no identity field.',
+        unverified=['rustls, webpki, ring, x509-parser, pkcs8 (the actual cryptography and certificate parsing): uninterpreted predicates',
+                    'CertVerifier::verify_client_cert / verify_server_cert (iterator and closure pipelines over &str; self-signed validation through webpki)',
+                    'that config.rs installs these verifiers into the rustls server / client configs (wiring)',
+                    'the two statics SUPPORTED_SIG_ALGS / SUPPORTED_ALGORITHMS hold &dyn objects: compared textually with the pinned definition (mismatch = undecided)'],
+        assumptions=['rustls reports the peer chain end-entity first and non-empty under mandatory client auth'],
+    ),
+    'C02': dict(
+        units=['wire', 'kani_wire'],
+        canaries=['wire', 'streams'],
+        extra=[validate.bincode_golden],
+        scope='PER STREAM ONLY: the caller writes exactly the encoding of its request to the send half of ONE freshly opened bidirectional stream, finishes it, and returns exactly '
+              '(status, headers, body) decoded from the receive half of that same stream; the serving side decodes one request from its stream, hands exactly that request to the '
+              'service AT MOST ONCE (ghost call log), and writes exactly the encoding of the response the handler produced for it to the send half of the same stream; a malformed '
+              'request never reaches the service. Encoding / decoding are the C07 contracts.',
+        unverified=['concurrency: arbitrary interleavings of RPCs and handler completion order (each stream has its own task and its own pair of halves: isolation between pairs is QUIC / quinn, ASSUMED)',
+                    'datagram loss, reordering, duplication (QUIC reliability, ASSUMED)',
+                    'retries layered above do_rpc by callers / middleware (see seeded change C02-retry-on-stream-reset: caught only as "do_rpc now calls an uncontracted helper" = undecided)'],
+        assumptions=['quinn: a bidirectional stream delivers the bytes written on one half to the other end\'s receive half of the same stream, in order, exactly once'],
     ),
 }
 
@@ -152,7 +179,7 @@ NOTES = ('Every check re-extracts the functions it depends on from /repo\'s work
          'exit 0 held, exit 1 VIOLATION, exit 2 undecided (lost anchor / construct the verifier rejects / timeout) - never an alarm.')
 PENDING = 'within reach of the technique (DESIGN.md section 5) but its unit is not built yet; not claimed until it runs green with guards'
 NOT_APPLICABLE = {
-    'C01': PENDING, 'C02': PENDING, 'C03': PENDING, 'C09': PENDING, 'C10': PENDING,     'C13': PENDING,     'C08': 'shutdown: task joins, channel closure, socket release and runtime teardown at every point in time; no function-level contract expresses it and neither verifier models tokio tasks or Drop ordering (DESIGN.md section 6)',
+     'C08': 'shutdown: task joins, channel closure, socket release and runtime teardown at every point in time; no function-level contract expresses it and neither verifier models tokio tasks or Drop ordering (DESIGN.md section 6)',
     'C12': 'cancellation: when a remote handler is dropped relative to a caller\'s cancellation and QUIC stream credit return are scheduling + quinn flow control; nothing in reach decides a sentence of it (section 6)',
     'C14': 'network names: decided inside rustls SNI resolver / webpki name matching reached through iterator+closure pipelines Verus rejects and Kani cannot execute (X.509 parsing, anyhow) (section 6)',
     'C16': 'routing: matching is the third-party matchit trie; router construction uses dyn Any downcasts, boxed trait objects, BTreeMap: outside both verifiers (section 6)',
